@@ -311,7 +311,10 @@ func verifHarness_C15_real_inflate_bomb() {
 		limit = verifInt("limit", n-20, n+2)
 	}
 	// the buffer size the receiver inflates into does not follow the limit
-	rcv := verifNewEndpoint(true, true, 0, mempool.New(64, 1<<20))
+	// (pooled buffers of 64 bytes, or of exactly the inflated size: a message that
+	// fills its buffer exactly at the limit is still within the limit)
+	bufSize := []int{64, n}[verifChoose("pool_buffer_size", 2)]
+	rcv := verifNewEndpoint(true, true, 0, mempool.New(bufSize, 1<<20))
 	rcv.u.MessageLengthLimit = limit
 	nw := len(rcv.fake.writes)
 	err := rcv.c.Parse(append([]byte(nil), wire...))
